@@ -169,6 +169,16 @@ def run(tier, seed):
                 if located and isinstance(parent, list) and obj is UNDEFINED:
                     exp_ap = C5.ref_apply([{"op": "add", "path": path.rsplit("/", 1)[0] + "/-", "value": v}], d)
                 if C5.negative_token([{"path": path}]):
+                    # a negative index that RESOLVES is the recorded finding C05-negative-array-index; one that
+                    # does not resolve is an index that cannot be resolved: addap appends, add / addne refuse
+                    tok = int(path.rsplit("/", 1)[1])
+                    if not (located and isinstance(parent, list) and -tok > len(parent)):
+                        continue
+                    exp_ap = C5.ref_apply([{"op": "add", "path": path.rsplit("/", 1)[0] + "/-", "value": v}], d)
+                    if ap == exp_ap and add[0] == "error" and ne[0] == "error":
+                        rec.ok(("negative-unresolvable", path))
+                    else:
+                        rec.fail(f"variant-negative:{path}|{d!r}", f"on {d!r} at {path!r} (an index that cannot be resolved): add -> {add!r}, addne -> {ne!r}, addap -> {ap!r}; expected add / addne to refuse and addap to append {exp_ap!r}", "sys.exit(2)")
                     continue
                 okk = (repr(ne) == repr(exp_ne) or (ne[0] == exp_ne[0] == "error")) and (repr(ap) == repr(exp_ap) or (ap[0] == exp_ap[0] == "error"))
                 if okk:
